@@ -11,6 +11,8 @@ package main
 import (
 	"math"
 	"math/rand"
+	"strconv"
+	"strings"
 
 	"oss.terrastruct.com/d2/lib/geo"
 	"oss.terrastruct.com/d2/lib/shape"
@@ -136,11 +138,94 @@ func traceCase(typ string, box [4]float64, aps []approach) map[string]any {
 		res = append(res, []string{hl.Rat(out.X), hl.Rat(out.Y), hl.Rat(rb.X), hl.Rat(rb.Y)})
 	}
 	in["approaches"] = ain
+	// the outline the traced end is judged against is the one that is DRAWN (d2svg: the ellipse of the box for oval and
+	// circle, the shape's SVG path otherwise, the box for rectangular shapes) — not the shape's own Perimeter(), which is
+	// what TraceToShapeBorder intersects with and could itself be wrong
 	segs := []any{}
-	for _, sg := range flatten(s.Perimeter()) {
+	for _, sg := range drawnOutline(typ, s, box) {
 		segs = append(segs, []string{hl.Rat(sg[0]), hl.Rat(sg[1]), hl.Rat(sg[2]), hl.Rat(sg[3])})
 	}
-	return map[string]any{"k": "trace", "in": in, "out": map[string]any{"res": res, "perimeter": segs, "rectangular": s.IsRectangular()}}
+	return map[string]any{"k": "trace", "in": in, "out": map[string]any{"res": res, "perimeter": segs, "rectangular": false}}
+}
+
+// drawnOutline flattens what d2svg draws for the shape into segments.
+func drawnOutline(typ string, s shape.Shape, box [4]float64) [][4]float64 {
+	var segs [][4]float64
+	add := func(x1, y1, x2, y2 float64) { segs = append(segs, [4]float64{q10(x1), q10(y1), q10(x2), q10(y2)}) }
+	if typ == shape.OVAL_TYPE || typ == shape.CIRCLE_TYPE {
+		// renderOval: <ellipse cx=tl.X+w/2 cy=tl.Y+h/2 rx=w/2 ry=h/2> (d2target maps circle to oval)
+		const n = 128
+		cx, cy, rx, ry := box[0]+box[2]/2, box[1]+box[3]/2, box[2]/2, box[3]/2
+		for i := 0; i < n; i++ {
+			a, b := 2*math.Pi*float64(i)/n, 2*math.Pi*float64(i+1)/n
+			add(cx+rx*math.Cos(a), cy+ry*math.Sin(a), cx+rx*math.Cos(b), cy+ry*math.Sin(b))
+		}
+		return segs
+	}
+	paths := s.GetSVGPathData()
+	if typ == shape.CYLINDER_TYPE || typ == shape.PAGE_TYPE {
+		paths = paths[:1] // the second path is an inner decoration (front arc, folded corner)
+	}
+	for _, pd := range paths {
+		f := strings.Fields(pd)
+		var sx, sy, cx, cy float64
+		num := func(i int) float64 {
+			v, err := strconv.ParseFloat(f[i], 64)
+			if err != nil {
+				panic("path data: " + pd)
+			}
+			return v
+		}
+		for i := 0; i < len(f); {
+			switch f[i] {
+			case "M":
+				sx, sy = num(i+1), num(i+2)
+				cx, cy = sx, sy
+				i += 3
+			case "L":
+				add(cx, cy, num(i+1), num(i+2))
+				cx, cy = num(i+1), num(i+2)
+				i += 3
+			case "H":
+				add(cx, cy, num(i+1), cy)
+				cx = num(i + 1)
+				i += 2
+			case "V":
+				add(cx, cy, cx, num(i+1))
+				cy = num(i + 1)
+				i += 2
+			case "C":
+				x1, y1, x2, y2, x3, y3 := num(i+1), num(i+2), num(i+3), num(i+4), num(i+5), num(i+6)
+				const n = 24
+				px, py := cx, cy
+				for k := 1; k <= n; k++ {
+					t := float64(k) / n
+					u := 1 - t
+					x := u*u*u*cx + 3*u*u*t*x1 + 3*u*t*t*x2 + t*t*t*x3
+					y := u*u*u*cy + 3*u*u*t*y1 + 3*u*t*t*y2 + t*t*t*y3
+					add(px, py, x, y)
+					px, py = x, y
+				}
+				cx, cy = x3, y3
+				i += 7
+			case "Z":
+				add(cx, cy, sx, sy)
+				cx, cy = sx, sy
+				i++
+			default:
+				panic("path data command " + f[i] + " in " + pd)
+			}
+		}
+	}
+	if len(segs) == 0 {
+		// no path: the shape is drawn as its box
+		x, y, w, h := box[0], box[1], box[2], box[3]
+		add(x, y, x+w, y)
+		add(x+w, y, x+w, y+h)
+		add(x+w, y+h, x, y+h)
+		add(x, y+h, x, y)
+	}
+	return segs
 }
 
 func genApproaches(r *rand.Rand, box [4]float64, n int) []approach {
